@@ -11,7 +11,9 @@ import (
 	"sort"
 	"strings"
 
+	"github.com/PapaCharlie/go-restli/v2/restli/batchkeyset"
 	"github.com/PapaCharlie/go-restli/v2/restlicodec"
+	"verifgen/gen/fam"
 	"verifgen/hx"
 )
 
@@ -128,6 +130,7 @@ func runC09(cfg *hx.Config) {
 		}
 	}
 	rep.Extra["fresh_processes"] = procs
+	rx := hx.NewRand(cfg.Seed + 991)
 	for i, v := range vals {
 		tname := names[i]
 		c := newCase("c09", tname, schema.coqTy(ref(tname)))
@@ -163,7 +166,48 @@ func runC09(cfg *hx.Config) {
 			rep.Sample(c.describe())
 		}
 		sh.Add(c.coq(), c.describe())
+		// the same with an exclusion spec (an excluded key must not disturb the ordering of its neighbours)
+		base := schema.refEncode(ref(tname), v)
+		paths := schema.randomPaths(rx, ref(tname), base)
+		// single-directive specs: every short path first (an excluded key between two kept keys is the interesting case),
+		// then a few random ones
+		var specs [][]string
+		for _, pth := range paths {
+			if strings.Count(pth, "/") <= 1 && !strings.HasSuffix(pth, "*") && len(specs) < 8 {
+				specs = append(specs, []string{pth})
+			}
+		}
+		for k := 0; k < 2 && len(paths) > 0; k++ {
+			specs = append(specs, []string{paths[rx.Intn(len(paths))], paths[rx.Intn(len(paths))]})
+		}
+		for _, ds := range specs {
+			if !wellFormedDirectives(ds) {
+				continue
+			}
+			ce := newCase("c09", tname, schema.coqTy(ref(tname)))
+			ce.desc.Excl = ds
+			spec := restlicodec.NewPathSpec(ds...)
+			var first []string
+			for rep2 := 0; rep2 < 4; rep2++ {
+				for _, f := range []int{0, 2} {
+					out, oc := encode(ptr, f, spec)
+					if rep2 == 0 {
+						ce.enc(f, v, oc, out)
+						first = append(first, out)
+						if f == 0 && oc.Class == "ok" && allValidUtf8(v) && !jsonKeysAscending(out) {
+							rep.Fail("canon:keys-not-ascending:with-exclusion", "object keys are not in ascending byte order when an exclusion spec is configured", "v2/restlicodec/writer.go:WriteMap", map[string]interface{}{"type": tname, "spec": ds, "out": out}, nil)
+						}
+					} else if out != first[f/2] {
+						rep.Fail("canon:differs-in-process:with-exclusion", "two encodings of the same value with the same exclusion spec differ", "v2/restlicodec/writer.go:WriteMap", map[string]interface{}{"type": tname, "spec": ds, "a": first[f/2], "b": out}, nil)
+					}
+				}
+			}
+			rep.Evaluations++
+			rep.Count("with-exclusion")
+			sh.Add(ce.coq(), ce.describe())
+		}
 	}
+	batchIdHistories(cfg, rep)
 	// query parameters supplied in shuffled orders
 	r := hx.NewRand(cfg.Seed + 77)
 	for k := 0; k < 200; k++ {
@@ -221,4 +265,71 @@ func genIdent(r *hx.Rand) string {
 		b[i] = "abcdeXYZ_09"[r.Intn(11)]
 	}
 	return string(b)
+}
+
+// batch ids: after every AddKey the encoded ids must be the individually encoded keys, each once, in ascending order -
+// whatever the history of earlier Encode calls (keys with colliding 32-bit FNV-1a hashes included)
+func batchIdHistories(cfg *hx.Config, rep *hx.Report) {
+	encodeOne := func(write func(w restlicodec.Writer) error) string {
+		w := restlicodec.NewRestLiQueryParamsWriter()
+		if err := write(w); err != nil {
+			panic(err)
+		}
+		return w.Finalize()
+	}
+	check := func(kind string, keys []string, got string, err error) {
+		rep.Evaluations++
+		want := append([]string{}, keys...)
+		sort.Strings(want)
+		exp := "ids=List(" + strings.Join(want, ",") + ")"
+		if err != nil || got != exp {
+			rep.Fail("canon:batch-ids:"+kind, "the ids parameter is not the ascending list of the individually encoded keys (each once)", "v2/restli/batchkeyset", map[string]interface{}{"kind": kind, "encoded_keys_in_insertion_order": keys, "got": got, "want": exp}, fmt.Sprint(err))
+		}
+	}
+	r := hx.NewRand(cfg.Seed + 5)
+	pool := []string{"costarring", "liquid", "declinate", "macallums", "altarage", "zinke", "a", "b", "a,b", "(x)", "", "k:1", "é", "z z", "A", "10", "9"}
+	rounds := 60
+	if cfg.Thorough() {
+		rounds = 1500
+	}
+	for k := 0; k < rounds; k++ {
+		perm := append([]string{}, pool...)
+		for i := len(perm) - 1; i > 0; i-- {
+			j := r.Intn(i + 1)
+			perm[i], perm[j] = perm[j], perm[i]
+		}
+		n := 2 + r.Intn(6)
+		// strings (primitive set), bytes (generic set, bucketed by hash), complex keys (generic set on the key part)
+		ss := batchkeyset.NewBatchKeySet[string]()
+		bs := batchkeyset.NewBytesKeySet()
+		cs := batchkeyset.NewComplexKeySet[*fam.CK]()
+		var es, eb, ec []string
+		for _, key := range perm[:n] {
+			key := key
+			if err := ss.AddKey(key); err == nil {
+				es = append(es, encodeOne(func(w restlicodec.Writer) error { w.WriteString(key); return nil }))
+			}
+			if err := bs.AddKey([]byte(key)); err == nil {
+				eb = append(eb, encodeOne(func(w restlicodec.Writer) error { w.WriteBytes([]byte(key)); return nil }))
+			}
+			ck := &fam.CK{Inner: fam.Inner{A: int32(len(key)), S: &key}, Params: &fam.Inner{A: int32(k)}}
+			if err := cs.AddKey(ck); err == nil {
+				ec = append(ec, encodeOne(func(w restlicodec.Writer) error { return ck.MarshalRestLi(w) }))
+			}
+			if r.Chance(70) { // encode between additions: an earlier Encode must not influence a later one
+				g, err := ss.EncodeQueryParams()
+				check("string", es, g, err)
+				g, err = bs.EncodeQueryParams()
+				check("bytes", eb, g, err)
+				g, err = cs.EncodeQueryParams()
+				check("complex", ec, g, err)
+			}
+		}
+		g, err := ss.EncodeQueryParams()
+		check("string", es, g, err)
+		g, err = bs.EncodeQueryParams()
+		check("bytes", eb, g, err)
+		g, err = cs.EncodeQueryParams()
+		check("complex", ec, g, err)
+	}
 }
